@@ -130,11 +130,31 @@ def reuse_scenarios():
     return scns
 
 
+def aborted_copy_scenarios():
+    """a use of a fact that is cut short inside the engine (evaluate_bounded swallows the RecursionError of a
+    deep renaming), then two simultaneous uses of the same fact: each still gets variables of its own"""
+    deep = lst([I(i) for i in range(105)])
+    scns = []
+    for fact in (C("p", V(0), deep), C("p", V(0), C("k", V(1), deep, V(0))), C("p", C("g", V(0), V(1)), deep)):
+        t1 = [{"op": "query", "e": 1, "r": 1, "goal": C("p", V(0), V(1)), "qnv": 2, "t": 1}, {"op": "next", "r": 1, "t": 1}, {"op": "next", "r": 1, "t": 1}]
+        t2 = [{"op": "query", "e": 1, "r": 2, "goal": C("p", A("a"), V(0)), "qnv": 1, "t": 2}, {"op": "next", "r": 2, "t": 2}, {"op": "close", "r": 2, "how": "close", "t": 2},
+              {"op": "query", "e": 1, "r": 3, "goal": C("p", C("g", A("b"), A("c")), V(0)), "qnv": 1, "t": 2}, {"op": "next", "r": 3, "t": 2}]
+        for lim in (None, 60, 120):
+            via = {"exc": "Exception", "prefix": True}
+            if lim:
+                via["limit"] = lim
+            steps = [[{"op": "assert", "e": 1, "term": fact, "atEnd": True, "r": 0, "t": 3}],
+                     [{"op": "solve", "e": 1, "r": 9, "goal": C("p", V(0), V(1)), "qnv": 2, "k": 0, "via": via, "t": 3}]]
+            scns.append({"engines": 1, "scripts": {}, "keys": [], "steps": steps, "threads": [t1, t2]})
+    return scns
+
+
 def run(tier, seed):
     chk = Check("C13", tier, seed)
     rnd = random.Random(seed)
     chk.machine_family("assert-histories", scenarios(), features=features)
     chk.machine_family("reuse-after-abandoned-use", reuse_scenarios(), features=features)
+    chk.machine_family("two-uses-after-an-aborted-renaming", aborted_copy_scenarios(), {"budget_extra": 20000000}, features=features, max_steps=8000)
     n = 1200 if tier == "quick" else 15000
     rs = [gen.random_scenario(rnd, {"db", "dyn", "ctl", "rich"}, nclauses=3, depth=rnd.choice([2, 3])) for _ in range(n)]
     for i in range(0, n, 4000):
